@@ -1,11 +1,13 @@
 package main
 
 import (
+	"bufio"
 	"bytes"
 	"encoding/json"
 	"errors"
 	"fmt"
 	"io"
+	"net"
 	"net/http"
 	"net/url"
 	"sort"
@@ -58,6 +60,12 @@ type c18Scenario struct {
 	// transaction to the mode above by ctl:ruleEngine (the writer is wrapped and
 	// the configured Reject actions stay in place)
 	ModeByCtl bool `json:"mode_by_ctl,omitempty"`
+	// PredBody > 0: before the request under test another request with a body of
+	// that size (it may spill to disk) went through the same middleware to a
+	// trivial handler; the request under test runs on the recycled transaction
+	PredBody int `json:"predecessor_body,omitempty"`
+	// Shape of the downstream connection: 0 plain, 1 http.Pusher (HTTP/2), 2 http.Hijacker (HTTP/1.x), 3 both
+	Shape int `json:"downstream_shape,omitempty"`
 }
 
 const c18Tok = "EVILTOK"
@@ -206,6 +214,10 @@ func c18Gen(t *verifrt.Tape) *c18Scenario {
 	if t.Draw(10) == 0 {
 		sc.DownFail = t.Draw(40)
 	}
+	if t.Draw(3) == 0 {
+		sc.PredBody = 1 + t.Draw(sc.ReqLimit+4)
+	}
+	sc.Shape = t.Draw(4)
 	return sc
 }
 
@@ -296,15 +308,106 @@ func (d c18DownFR) ReadFrom(r io.Reader) (int64, error) {
 	return io.Copy(struct{ io.Writer }{d.c18Down}, r)
 }
 
+// connection shapes: net/http hands out writers that are Hijackers (HTTP/1.x),
+// Pushers (HTTP/2), neither (recorders, other servers) or both (wrappers); the
+// middleware picks a wrapper variant by that shape, and every variant owes the
+// client the same thing
+type c18Push struct{}
+
+func (c18Push) Push(string, *http.PushOptions) error { return http.ErrNotSupported }
+
+type c18Hijack struct{}
+
+func (c18Hijack) Hijack() (net.Conn, *bufio.ReadWriter, error) {
+	return nil, nil, errors.New("simulated connection cannot be hijacked")
+}
+
 func (sc *c18Scenario) newDown() (*c18Down, http.ResponseWriter) {
 	d := &c18Down{hdr: http.Header{}, failAt: sc.DownFail}
+	var p c18Push
+	var hj c18Hijack
 	switch {
 	case sc.Flusher && sc.ReaderFrom:
-		return d, c18DownFR{d}
+		b := c18DownFR{d}
+		switch sc.Shape {
+		case 1:
+			return d, struct {
+				c18DownFR
+				c18Push
+			}{b, p}
+		case 2:
+			return d, struct {
+				c18DownFR
+				c18Hijack
+			}{b, hj}
+		case 3:
+			return d, struct {
+				c18DownFR
+				c18Push
+				c18Hijack
+			}{b, p, hj}
+		}
+		return d, b
 	case sc.Flusher:
-		return d, c18DownF{d}
+		b := c18DownF{d}
+		switch sc.Shape {
+		case 1:
+			return d, struct {
+				c18DownF
+				c18Push
+			}{b, p}
+		case 2:
+			return d, struct {
+				c18DownF
+				c18Hijack
+			}{b, hj}
+		case 3:
+			return d, struct {
+				c18DownF
+				c18Push
+				c18Hijack
+			}{b, p, hj}
+		}
+		return d, b
 	case sc.ReaderFrom:
-		return d, c18DownR{d}
+		b := c18DownR{d}
+		switch sc.Shape {
+		case 1:
+			return d, struct {
+				c18DownR
+				c18Push
+			}{b, p}
+		case 2:
+			return d, struct {
+				c18DownR
+				c18Hijack
+			}{b, hj}
+		case 3:
+			return d, struct {
+				c18DownR
+				c18Push
+				c18Hijack
+			}{b, p, hj}
+		}
+		return d, b
+	}
+	switch sc.Shape {
+	case 1:
+		return d, struct {
+			*c18Down
+			c18Push
+		}{d, p}
+	case 2:
+		return d, struct {
+			*c18Down
+			c18Hijack
+		}{d, hj}
+	case 3:
+		return d, struct {
+			*c18Down
+			c18Push
+			c18Hijack
+		}{d, p, hj}
 	}
 	return d, d
 }
@@ -432,6 +535,39 @@ func c18Run(w *verifrt.World, tier Tier) *RunResult {
 	}
 	defer h.Close()
 	faulty := sc.ClientFail >= 0 || sc.DownFail >= 0
+	recBefore := 0
+	if sc.PredBody > 0 {
+		w.PoolPolicy = verifrt.PoolLIFO
+		res.count("predecessor_requests", 1)
+		pu, _ := url.Parse("/pred?x=1")
+		preq := &http.Request{Method: "POST", URL: pu, Proto: "HTTP/1.1", ProtoMajor: 1, ProtoMinor: 1, Header: http.Header{}, Host: "example.com", RemoteAddr: "10.9.8.6:4320"}
+		preq.Header.Set("Content-Type", "application/x-www-form-urlencoded")
+		pb := strings.Repeat("p=0123456789&", sc.PredBody/13+1)[:sc.PredBody]
+		preq.Body = io.NopCloser(strings.NewReader(pb))
+		preq.ContentLength = int64(len(pb))
+		pd := &c18Down{hdr: http.Header{}, failAt: -1}
+		if p := safely(func() {
+			corazahttp.WrapHandler(h.WAF, http.HandlerFunc(func(rw http.ResponseWriter, r *http.Request) {
+				io.Copy(io.Discard, r.Body)
+				rw.Header().Set("Content-Type", "text/plain")
+				rw.WriteHeader(200)
+				rw.Write([]byte("predecessor response"))
+			})).ServeHTTP(pd, preq)
+		}); p != "" {
+			res.fail("C18", "panic", "predecessor/"+panicSite(p), "the middleware panicked on the predecessor request: %s\nconfiguration:\n%s", p, text)
+			return res
+		}
+		// look at the recording writer through a transaction that does not come
+		// from the pool and does not go back to it: the object the predecessor
+		// used must reach the request under test untouched
+		w.PoolPolicy = verifrt.PoolNew
+		ptx := h.WAF.NewTransactionWithID("probe-writer-0")
+		if r0 := recWriterOf(ptx); r0 != nil {
+			recBefore = len(r0.Records)
+		}
+		ptx.Close()
+		w.PoolPolicy = verifrt.PoolLIFO
+	}
 
 	// ---- unwrapped reference
 	refObs := &c18HandlerObs{}
@@ -462,8 +598,8 @@ func c18Run(w *verifrt.World, tier Tier) *RunResult {
 		rec = recWriterOf(tx)
 		tx.Close()
 	}
-	if (!sc.EngineOff || sc.ModeByCtl) && rec != nil && len(rec.Records) != 1 {
-		res.fail("C18", "logging-count", fmt.Sprintf("records%d", min(len(rec.Records), 2)), "the middleware produced %d audit records for one request (ProcessLogging must run exactly once)%s", len(rec.Records), ctx())
+	if (!sc.EngineOff || sc.ModeByCtl) && rec != nil && len(rec.Records)-recBefore != 1 {
+		res.fail("C18", "logging-count", fmt.Sprintf("records%d", min(len(rec.Records)-recBefore, 2)), "the middleware produced %d audit records for one request (ProcessLogging must run exactly once)%s", len(rec.Records)-recBefore, ctx())
 	}
 	if left := diffFiles(filesBefore, disk.Files()); len(left) > 0 {
 		res.fail("C18", "temp-file-left", tmpKind(left[0]), "files left behind after the request: %v%s", left, ctx())
@@ -632,6 +768,6 @@ func init() {
 		Real:      []string{"http.WrapHandler, processRequest, rwInterceptor, transaction, BodyBuffer incl. spill"},
 		Stub:      []string{"client request stream", "handler (scripted)", "downstream http.ResponseWriter (net/http contract stub)", "file system", "audit writer (recording plugin)"},
 		Unchecked: []string{"status mapping of drop / redirect", "flush timing", "hijacked connections", "everything but no-panic / no-foreign-bytes / no-temp-files under stream faults"},
-		MustHit:   []string{"mode_by_ctl", "expected_block_phase_0", "expected_block_phase_1", "expected_block_phase_2", "expected_block_phase_3", "expected_block_phase_4", "request_body_spilled", "fault_runs", "mode_DetectionOnly", "mode_Off"},
+		MustHit:   []string{"predecessor_requests", "mode_by_ctl", "expected_block_phase_0", "expected_block_phase_1", "expected_block_phase_2", "expected_block_phase_3", "expected_block_phase_4", "request_body_spilled", "fault_runs", "mode_DetectionOnly", "mode_Off"},
 	})
 }
